@@ -266,13 +266,33 @@ EARLY_Y2 = Y2()
 directlyProvides(EARLY_Y2, I1, I2)
 classImplements(YB, I0)           # late, on the base
 classImplements(Y2, I2)           # late, on the class itself (makes I2 redundant after the fact)
-EARLY = (('A', 'EARLY_A'), ('A', 'EARLY_A2'), ('Y', 'EARLY_Y'), ('Y2', 'EARLY_Y2'))
+@implementer(I0)
+class ZR:                        # narrowed after an instance got a (then redundant) declaration
+    pass
 
-CLASSES = (Plain, A, B, C, D, E, F, G, H, J, K, L, M, N, O, P, Q, R, S, T, U, V, W, X, OS, OS2, YB, Y, Y2)
+
+LATE_1 = ZR()
+directlyProvides(LATE_1, I0)     # redundant when it is made
+classImplementsOnly(ZR, I2)
+LATE_2 = ZR()
+directlyProvides(LATE_2, I0)     # the same (class, I0) after the narrowing: not redundant any more
+alsoProvides(LATE_1, I0)         # ... and repeated on the first instance
+directlyProvides(ZR(), I3)       # an unrelated declaration in between
+
+
+class IModAttr(Interface):
+    """An interface that *describes* an attribute called __module__ (as
+    zope.interface.interfaces.IInterface does)."""
+    __module__ = Attribute("The name of the module; DEFINITION-MARKER-MODATTR")
+
+
+EARLY = (('ZR', 'LATE_1'), ('ZR', 'LATE_2'), ('A', 'EARLY_A'), ('A', 'EARLY_A2'), ('Y', 'EARLY_Y'), ('Y2', 'EARLY_Y2'))
+
+CLASSES = (Plain, A, B, C, D, E, F, G, H, J, K, L, M, N, O, P, Q, R, S, T, U, V, W, X, OS, OS2, YB, Y, Y2, ZR)
 FACTORIES = (factory, factory2)
 EXPECTED_DECLARED = {'OS': ['I2'], 'OS2': ['I1', 'I2', 'I3'], 'factory': ['I1'], 'factory2': ['I0', 'I2']}
 BUILTINS = (list, dict, int, tuple)       # their specifications live in a registry, not on the type
-IFACES = (I0, I1, I2, I3, IM, IMA, IMP)
+IFACES = (I0, I1, I2, I3, IM, IMA, IMP, IModAttr)
 
 INSTANCE_SHAPES = ('plain', 'dp_I2', 'dp_I1I2', 'ap_I0', 'dp_then_nlp', 'dp_I3', 'dp_empty',
                    'dp_nested', 'ap_twice')
